@@ -313,8 +313,8 @@ _cmp_f (mod_t x, mod_t y)
 {
     int c;
 
-    if (x->priority != y->priority)
-        return (y->priority - x->priority);
+    if (x->priority != y->priority)     /* no subtraction: it overflows */
+        return (y->priority > x->priority) ? 1 : -1;
     if ((c = strcmp (x->pmod->name, y->pmod->name)) != 0)
         return c;
     /*  Same priority and name: order by type, so that the order of the list
